@@ -68,6 +68,185 @@ def P(**kw):
     return kw
 
 
+
+COMMON_NOTE = ("Trusted: CBMC 6.11 semantics/back ends/DFCC; allocator model (stubs/alloc_model.c); generated configuration.h; "
+               "little-endian LP64 target; DEBUG flavour (CBOR_ASSERT active). ")
+A1 = "A1: structural induction over finite acyclic item trees / decoder stacks is a meta-argument; CBMC proves each step (every node kind, arbitrary fan-out) against induction-hypothesis twins"
+A2 = "A2: induction over sequences (heads consumed by cbor_load, API histories, client fragments) is a meta-argument over discharged per-step obligations"
+
+META("C01",
+     text="Every function brought under contract so far (streaming decoder, loaders, encoders, UTF-8 counter, item constructors/"
+          "getters/setters, containers, cbor_decref per node kind, stack, serializers, cbor_copy per leaf kind) is enforced with "
+          "CBMC's pointer/bounds/overflow/shift obligations and with every CBOR_ASSERT as an obligation (-DDEBUG=1), on fully "
+          "symbolic inputs: buffers are exactly-sized heap objects of symbolic length, so any read outside the caller's buffer "
+          "fails a pointer obligation; loops are closed by loop contracts with decreases clauses (termination).",
+     note=COMMON_NOTE + "The main loop of cbor_load and the builder callbacks are not yet under contract in this revision: the "
+          "whole-input statement is covered for the streaming decoder and all post-decode operations per node, not for the "
+          "tree decoder's loop. Recursion terminates by structural induction (A1).",
+     trusted=[A1, A2], uncovered=["cbor_load main loop and the 24 builder callbacks: not yet under contract (only cbor_load's empty-input path)",
+                                  "cbor_describe: not under contract"],
+     meta=["tree-level statements by induction over per-node steps (A1)"])
+
+META("C02",
+     text="Head level: the real cbor_stream_decode is proved to fire exactly the callback RFC 8949 section 3 prescribes for the "
+          "head at the start of the buffer with exactly its decoded arguments (all 256 initial bytes, all lengths) and to reject "
+          "exactly the reserved/unsupported initial bytes; item constructors and container operations the builder uses are proved "
+          "against exact contracts (fresh node, refcount 1, exact type/width/value; push/add append in storage order).",
+     note=COMMON_NOTE + "The builder callbacks / _cbor_builder_append push-down transitions and the cbor_load loop are NOT yet under "
+          "contract: the accept/reject language at tree level is therefore only decided up to heads in this revision.",
+     trusted=[A1, A2], uncovered=["push-down automaton transitions of the builder callbacks (planned, DESIGN 5 C02)", "cbor_load loop composition"],
+     meta=["composition over the sequence of heads (A2)"])
+
+META("C03",
+     text="All 30 cbor_encode_* functions are proved to write exactly the RFC 8949 head (spec/head.h: big-endian, named width or "
+          "shortest form, NaN canonical); encoder->decoder inverse is proved as a lemma over the two contracts; every "
+          "cbor_serialize_* is proved per node kind: leaves write the head of the stored width/value, strings head+bytes, "
+          "composites write start/head, then every child in storage order in contiguous windows (children through "
+          "induction-hypothesis twins, arbitrary fan-out, loop contracts), then break for indefinite flavours.",
+     note=COMMON_NOTE + "load(serialize(t)) == t and idempotence are structural inductions over these steps (A1) and the per-head "
+          "inverse; they are not a single discharged obligation. Half floats: exactness is proved from the bit-pattern side (C15).",
+     trusted=[A1, "A7: spec/head.h is the definition of the RFC 8949 head"],
+     uncovered=["whole-tree round trip: meta-argument over per-node steps", "builder side of the round trip: see C02"],
+     meta=["round trip by structural induction (A1)"])
+
+META("C04",
+     text="Per-operation reference-count deltas are postconditions of the real functions (incref +1, move -1, constructors 1, "
+          "push/add/set_item/add_chunk +1 on the stored item only, replace +1/-1, get/tag_item +1 on the returned item); "
+          "cbor_decref is proved per node kind with arbitrary fan-out: last release hands each of the node's blocks to the "
+          "configured free exactly once (CBMC free-model obligations: live, offset 0, not twice) and releases every stored child "
+          "exactly once (ghost hit counter at an arbitrary watched slot), non-last release frees nothing.",
+     note=COMMON_NOTE + "The history-level invariant (refcount == number of references the rules say exist; nothing remains when all "
+          "references are dropped) is induction over API calls with these per-operation steps (A2), not machine-checked. "
+          "cbor_decref on maps is a bounded stand-in (<= 3 pairs).",
+     trusted=[A1, A2], uncovered=["whole-history ownership graph: meta-argument"], meta=["history induction (A2)"])
+
+META("C05",
+     text="cbor_load's empty-input path is proved to return NULL with NODATA and every field of the result written (the result is "
+          "arbitrary memory beforehand); ERROR <=> reserved/unsupported initial byte with nothing consumed, and NEDATA <=> the buffer "
+          "ends inside head or payload, are postconditions of the real cbor_stream_decode for all buffers; prefix determinism "
+          "(a shorter buffer never turns FINISHED into ERROR) is a lemma over that contract.",
+     note=COMMON_NOTE + "The status->error-code mapping and position bookkeeping inside cbor_load's loop, and the flag-raising of the "
+          "builder callbacks, are not yet under contract in this revision.",
+     trusted=[A2], uncovered=["cbor_load loop: code mapping / position for non-empty inputs", "builder callbacks: syntax_error / creation_failed exactness"],
+     meta=["composition over heads (A2)"])
+
+META("C06",
+     text="Every allocating function under contract is proved with an allocator model in which EACH request may be refused "
+          "independently (subsumes 'k-th alone' and 'k-th and all later'): constructors/builders, container growth at every "
+          "capacity (symbolic), stack push, cbor_copy of leaf kinds: failure through the documented channel, no safety obligation "
+          "fails (no crash), arguments unchanged on failure (fields compared with their old values), and exact accounting of live "
+          "blocks (ghost g_live) shows that everything allocated up to the failure was released.",
+     note=COMMON_NOTE + "cbor_load and the builder callbacks under allocation failure are not yet covered; cbor_copy of composite "
+          "kinds is covered for tags only so far. Composition over a whole tree is by the steps (A1).",
+     trusted=[A1], uncovered=["cbor_load / builder callbacks under allocation failure", "cbor_copy of arrays/maps/chunked strings", "cbor_serialize_alloc"],
+     meta=[])
+
+META("C07",
+     text="Every cbor_encode_* and _cbor_encode_*: conditional frame object_upto(buffer, need) (so 'returns 0 having left the buffer "
+          "untouched' and 'all bytes inside the buffer' are both frame obligations, checked on every store) and return == need or 0, "
+          "for all values and all buffer sizes; every cbor_serialize_* : frame = the caller's buffer only, result <= n, success only "
+          "with the exact total header + sum of child sizes (+break), failure only when the window is too small for what was "
+          "attempted or a child size is not representable; cbor_serialized_size per node kind: exact total or 0.",
+     note=COMMON_NOTE + "Agreement between cbor_serialize and cbor_serialized_size for composite nodes follows from both being proved "
+          "equal to header + sum over the same children; the two sums are related by a meta-argument (same children, same order; "
+          "both proofs establish the order). cbor_serialize_alloc and the cbor_serialize dispatcher are not yet under contract.",
+     trusted=[A1], uncovered=["cbor_serialize_alloc", "machine-checked equality of the two child sums at arbitrary fan-out"],
+     meta=["equality of the two folds over the same children"])
+
+META("C09",
+     text="Lemmas over the C08 contract of the real cbor_stream_decode (so they hold for every buffer): prefix determinism (more "
+          "buffered bytes never change a complete event; an event is determined by the bytes it reports as read; ERROR depends on "
+          "the initial byte only) and progress (each wait asks for strictly more than is buffered and never for more than the pending "
+          "item occupies; with `required` bytes buffered the next call delivers or asks for strictly more).",
+     note=COMMON_NOTE + "The statement about a whole stream and a whole fragmentation is the induction over the client loop (A2) on top "
+          "of these lemmas; no fragmentation is enumerated.",
+     trusted=[A2], uncovered=[], meta=["client-loop induction (A2)"])
+
+META("C10",
+     text="One proof per encoder (33): exact bytes against spec/head.h for ALL values and buffer sizes; then, as a lemma over the "
+          "encoder contract and the C08 decoder contract (both discharged on the real code), decoding the written bytes fires the "
+          "matching callback once with the identical value and consumes exactly the bytes written; simple values other than "
+          "20..23 are encoded per RFC 8949 3.3 and decode to ERROR (profile).",
+     note=COMMON_NOTE + "Half floats are covered from the bit-pattern side in C15.", trusted=["A7: spec/head.h"], uncovered=[], meta=[])
+
+META("C11",
+     text="cbor_copy per node kind so far: integers (each width, both signs), floats/simple values (each width), definite byte and "
+          "text strings, tags: the result is a fresh node (is_fresh: shares no node or buffer with the source) with reference count "
+          "one, same type/width/value/length/bytes/tag number; the source node's fields are unchanged and every transient reference "
+          "taken on a child is given back (ghost counters).",
+     note=COMMON_NOTE + "Arrays, maps and chunked strings (loop contracts + twins) are planned but not in this revision; 'serializes to "
+          "the same bytes' follows from shape equality and C03 (meta).",
+     trusted=[A1], uncovered=["cbor_copy of arrays, maps, chunked strings"], meta=["tree induction (A1)"])
+
+META("C12",
+     text="Containers against a list view (size, element at an arbitrary ghost index): definite push/add accept iff size < capacity and "
+          "append, else refuse with everything unchanged; indefinite ones grow exactly when full, to exactly max(1, 2*capacity), with "
+          "exactly one realloc request of exactly that many elements and none otherwise; earlier elements survive a reallocation; "
+          "size <= capacity; get/replace/set refuse out-of-range indices without touching memory.",
+     note=COMMON_NOTE + "Growth of maps is a bounded stand-in (capacity <= 4); 'logarithmically many reallocations' is arithmetic over the "
+          "proved doubling law (meta). Capacities are limited to 2^36 elements by the object model.",
+     trusted=[A2], uncovered=["amortised reallocation count: arithmetic meta-argument"], meta=["history induction (A2)"])
+
+META("C13",
+     text="Static scan (nm -u of every library object compiled with clang -fno-builtin): no translation unit other than allocators.c "
+          "references malloc/calloc/realloc/free/...; in every contract proof the library runs on the allocator model, libc's names "
+          "inside library code are redirected to trap stubs whose bodies are assert(false), every release goes through CBMC's "
+          "free-model obligations (live block, offset 0, once); the streaming decoder, all encoders, fixed-buffer serialization and "
+          "size computation are proved with the allocator forbidden (any call fails an obligation).",
+     note=COMMON_NOTE + "History-level bookkeeping is the C04 meta-argument; no concrete allocator is run.",
+     trusted=[A2], uncovered=[], meta=[])
+
+META("C14",
+     text="Independence lemma over the C08 contract: for two different buffers that agree on the bytes a FINISHED result reports as read, "
+          "the second call gives the identical result and event whatever follows; prefix lemma: an event is determined by the bytes it "
+          "reports as read.",
+     note=COMMON_NOTE + "cbor_load's loop facts (decoder only called at offset read; loop exits when the stack empties) are not yet under "
+          "contract; the sequence-splitting statement is an induction over items (A2).",
+     trusted=[A2], uncovered=["cbor_load loop exit / read accumulation"], meta=["induction over items (A2)"])
+
+META("C15",
+     text="Bit-precise (CBMC float-bv), all patterns symbolic: every one of the 65536 half patterns decodes (real _cbor_load_half) to "
+          "exactly the IEEE-754 value (integer-only reference conversion) and re-encodes (real cbor_encode_half) to the original two "
+          "bytes, NaN to 7E00; all 2^32 single and 2^64 double patterns: load is the identity on bits, encode is the identity except "
+          "NaN -> canonical quiet NaN; cbor_encode_half is total for all 2^32 floats (3 bytes, no UB obligation, its CBOR_ASSERTs hold); "
+          "item setters/getters/builders and cbor_serialize_float_ctrl preserve the stored bits.",
+     note=COMMON_NOTE + "Trusted: the ldexp model (validated natively against libm over the whole argument set in bin/setup).",
+     trusted=["A4: ldexp model"], uncovered=[], meta=[])
+
+META("C16",
+     text="Unbounded: (1) the DFA step _cbor_unicode_decode equals the RFC 3629 ABNF automaton step for all 9 states x 256 bytes; "
+          "(2) the counting loop is closed by a loop contract in which a ghost 'reference run' of the RFC automaton is advanced once "
+          "per byte, in order (asserted at every call site): result == number of scalar values iff the reference run ends at a scalar "
+          "boundary, else 0 with BADCP, for buffers of any length; (3) cbor_string_set_handle stores data/length unchanged and the "
+          "count or 0. Cross-check: exact count against a reference validator for every byte string of length <= 8 (16 thorough).",
+     note=COMMON_NOTE + "spec/utf8.h is the definition of strict UTF-8 (written from the ABNF).",
+     trusted=["A7: spec/utf8.h"], uncovered=["builder string callback never raising a flag because of content: see C02"], meta=[])
+
+META("C17",
+     text="Decides the sentence 'the library keeps no hidden mutable global state': (a) every contract frame (assigns) proved so far "
+          "contains no static-lifetime object of the library, and DFCC checks every store against it; (b) symbol-table scan of the whole "
+          "library: the only mutable static-lifetime objects are the three allocator pointers (written only by cbor_set_allocs) and "
+          "cbor_load's callback table (never written); any new static, including function-local ones, is reported.",
+     note="NO SCHEDULE IS EXPLORED: contracts here are sequential. Data-race freedom for unshared items follows from disjoint footprints "
+          "(A8, textbook argument, not machine-checked). This is the weakest claim in the set.",
+     level="proof", trusted=["A8: data-race freedom from disjoint footprints"], uncovered=["interleavings: not explored by this technique"],
+     meta=["disjoint-footprint argument (A8)"])
+
+META("C18",
+     text="Empty frame __CPROVER_assigns() on all 53 predicates/getters that do not hand out a reference, and a frame consisting of the "
+          "caller's output buffer only on every cbor_serialize_* and of nothing on cbor_serialized_size, per node kind with arbitrary "
+          "fan-out; DFCC instruments each store, so a write that is undone before return fails an obligation.",
+     note=COMMON_NOTE + "Tree-level statement by A1 (children through twins with the same frames).",
+     trusted=[A1], uncovered=[], meta=["tree induction (A1)"])
+
+META("C19",
+     text="_cbor_stack_push/pop/init proved with a SYMBOLIC limit L >= 1 (configuration.h generated with CBOR_MAX_STACK_SIZE = a "
+          "nondeterministic value): size == L => refused before any allocator request, nothing changes; size < L => exactly one frame "
+          "pushed or the allocator's refusal reported; size <= L preserved.",
+     note=COMMON_NOTE + "That each opener callback pushes exactly one frame and maps refusal to MEMERROR is not yet under contract (C02). "
+          "'Within native stack proportional to L' is not decidable by this technique (no notion of stack consumption).",
+     trusted=[A2], uncovered=["native stack consumption: not decidable here", "opener callbacks -> one push each: pending"], meta=[])
+
 # ------------------------------------------------------------------------------------------------
 # L0 arithmetic (C20)
 
@@ -391,25 +570,22 @@ P(name="cont_array_set", props={"C12": [], "C04": [], "C06": [], "C01": SAFETY},
   contracts=CONT_CONTRACTS, harness="harness/ops.c", defines=["H_ARRAY_SET"], enforce=None, also_verified=["cbor_array_set"],
   replace=["cbor_array_push", "cbor_array_replace"], must_exist=[r"cbor_array_push\.precondition\.\d+"], min_covers=4, cost=120, timeout=900)
 CONT("cbor_new_indefinite_map", ["H_CTOR", "CALL=cbor_new_indefinite_map()"], must=4, covers=2, cost=3)
-# _cbor_map_add_key / cbor_map_add: one query over all cases ran out of memory (arrays of two-pointer structs of
-# symbolic length through the realloc model); the contract is discharged as two case proofs that together are
-# exhaustive: no reallocation possible (definite, or indefinite with room) and a full indefinite map.  The growth
-# case additionally bounds the capacity (bounded stand-in) because the realloc copy of a symbolic-length pair
-# array did not finish on any back end.
+# Maps: bounded stand-ins (pair storage of at most 4 pairs; everything else symbolic), see harness/mkitem.h mk_map.
+MAP_BOUND = "maps with capacity <= 4 pairs (all fill levels, definite and indefinite, growth 0->1->2->4->8)"
 MAPKEY_REPL = ["cbor_isa_map", "cbor_map_is_definite", "cbor_map_handle", "_cbor_safe_to_multiply", "cbor_incref"]
-P(name="cont_map_add_key_nogrow", props=dict(CONT_PROPS), lib=ITEMLIB, stubs=ITEM_STUBS + ["stubs/decref_ghost.c"],
-  contracts=CONT_CONTRACTS, harness="harness/ops.c", defines=["H_MAP_ADD_KEY", "MAP_CASE_NOGROW"], enforce="_cbor_map_add_key",
-  replace=MAPKEY_REPL, must_exist=[r"_cbor_map_add_key\.postcondition\.8"], min_covers=3, cost=120, timeout=900)
-P(name="cont_map_add_key_grow_bounded", kind="bounded", bound="growth of indefinite maps with capacity <= 4 (0,1,2,4 -> 1,2,4,8); refusal and success",
-  props=dict(CONT_PROPS), lib=ITEMLIB, stubs=ITEM_STUBS + ["stubs/decref_ghost.c"],
-  contracts=CONT_CONTRACTS, harness="harness/ops.c", defines=["H_MAP_ADD_KEY", "MAP_CASE_GROW", "MAP_GROW_BOUND=4"], enforce="_cbor_map_add_key",
-  replace=MAPKEY_REPL, must_exist=[r"_cbor_map_add_key\.postcondition\.8"], min_covers=3, cost=120, timeout=900)
+P(name="cont_map_add_key_bounded", kind="bounded", bound=MAP_BOUND, props=dict(CONT_PROPS), lib=ITEMLIB,
+  stubs=ITEM_STUBS + ["stubs/decref_ghost.c"], contracts=CONT_CONTRACTS, harness="harness/ops.c",
+  defines=["H_MAP_ADD_KEY", "VERIF_MAP_CAP=4"], enforce="_cbor_map_add_key", replace=MAPKEY_REPL,
+  must_exist=[r"_cbor_map_add_key\.postcondition\.8"], min_covers=7, cost=120, timeout=900)
 CONT("_cbor_map_add_value", ["H_MAP_ADD_VALUE"], replace=["cbor_isa_map", "cbor_map_handle", "cbor_incref"], must=2, covers=2, cost=30)
-for case, cov in (("NOGROW", 3), ("GROW", 3)):
-    P(name="cont_map_add_" + case.lower(), props=dict(CONT_PROPS), lib=ITEMLIB, stubs=ITEM_STUBS + ["stubs/decref_ghost.c"],
-      contracts=CONT_CONTRACTS, harness="harness/ops.c", defines=["H_MAP_ADD", "MAP_CASE_" + case], enforce="cbor_map_add",
-      replace=["cbor_isa_map", "_cbor_map_add_key", "_cbor_map_add_value"], must_exist=[r"cbor_map_add\.postcondition\.6"],
-      min_covers=cov, cost=120, timeout=900)
+P(name="cont_map_add_value_bounded", tier="thorough", kind="bounded", bound=MAP_BOUND, props=dict(CONT_PROPS), lib=ITEMLIB,
+  stubs=ITEM_STUBS + ["stubs/decref_ghost.c"], contracts=CONT_CONTRACTS, harness="harness/ops.c",
+  defines=["H_MAP_ADD_VALUE", "VERIF_MAP_CAP=4"], enforce="_cbor_map_add_value", replace=["cbor_isa_map", "cbor_map_handle", "cbor_incref"],
+  must_exist=[r"_cbor_map_add_value\.postcondition\.2"], min_covers=2, cost=30)
+P(name="cont_map_add_bounded", kind="bounded", bound=MAP_BOUND, props=dict(CONT_PROPS), lib=ITEMLIB,
+  stubs=ITEM_STUBS + ["stubs/decref_ghost.c"], contracts=CONT_CONTRACTS, harness="harness/ops.c",
+  defines=["H_MAP_ADD", "VERIF_MAP_CAP=4"], enforce="cbor_map_add", replace=["cbor_isa_map", "_cbor_map_add_key", "_cbor_map_add_value"],
+  must_exist=[r"cbor_map_add\.postcondition\.6"], min_covers=7, cost=120, timeout=900)
 CONT("cbor_bytestring_add_chunk", ["H_ADD_CHUNK", "MK=mk_indef_bytestring", "MKCHUNK=mk_def_bytestring", "ADD_CHUNK=cbor_bytestring_add_chunk"],
      replace=["cbor_isa_bytestring", "cbor_bytestring_is_indefinite", "cbor_bytestring_is_definite", "_cbor_safe_to_multiply", "cbor_incref"],
      must=6, covers=5, cost=60, timeout=900)
@@ -468,10 +644,10 @@ ENC_ALL = ["cbor_encode_uint8", "cbor_encode_uint16", "cbor_encode_uint32", "cbo
            "cbor_encode_double"]
 
 
-def SER(name, kind, fn, top=None, size=False, extra_defs=(), must=2, covers=2, props=None, loops=True, **kw):
+def SER(name, nodekind, fn, top=None, size=False, extra_defs=(), must=2, covers=2, props=None, loops=True, **kw):
     P(name="ser_" + name, props=dict(props or SER_PROPS), lib=SERLIB, stubs=SER_STUBS, contracts=SER_CONTRACTS,
       harness="harness/serialize.c",
-      defines=["SER_KIND_" + kind, "SER_FN=" + (top or fn), "VERIF_FIXED_NODES"] + (["SER_SIZE"] if size else []) + list(extra_defs),
+      defines=["SER_KIND_" + nodekind, "SER_FN=" + (top or fn), "VERIF_FIXED_NODES"] + (["SER_SIZE"] if size else []) + list(extra_defs),
       enforce=fn, twins=SER_TWINS,
       replace=list(SER_TWINS.values()) + ENC_ALL + ["_cbor_safe_signaling_add", "_cbor_encoded_header_size"],
       loops="loops/serialization.json" if loops else None,
@@ -489,14 +665,15 @@ for w in ("0", "1", "2", "3"):
     SER("float_ctrl_w" + w, "FLOAT_CTRL", "cbor_serialize_float_ctrl", extra_defs=["VERIF_FLOAT_WIDTH=" + w], must=5, loops=False,
         props=dict(SER_PROPS, C15=FUNC))
 SER("array", "ARRAY", "cbor_serialize_array", must=6, covers=4)
-SER("map", "MAP", "cbor_serialize_map", must=6, covers=4)
+SER("map_bounded", "MAP", "cbor_serialize_map", must=6, covers=4, extra_defs=["VERIF_MAP_CAP=4"], kind="bounded", bound=MAP_BOUND)
 SER("tag", "TAG", "cbor_serialize_tag", must=5, covers=2, replay="tag_readonly")
 SER("def_bytestring", "DEF_BYTESTRING", "cbor_serialize_bytestring", top="cbor_serialize_bytestring__top", must=6)
 SER("indef_bytestring", "INDEF_BYTESTRING", "cbor_serialize_bytestring", top="cbor_serialize_bytestring__top", must=6, covers=4)
 SER("def_string", "DEF_STRING", "cbor_serialize_string", top="cbor_serialize_string__top", must=6)
 SER("indef_string", "INDEF_STRING", "cbor_serialize_string", top="cbor_serialize_string__top", must=6, covers=4)
 for kind in ("INT", "FLOAT_CTRL", "DEF_BYTESTRING", "DEF_STRING", "INDEF_BYTESTRING", "INDEF_STRING", "ARRAY", "MAP", "TAG"):
-    SER("size_" + kind.lower(), kind, "cbor_serialized_size", top="cbor_serialized_size__top", size=True, must=8,
+    SER("size_" + kind.lower() + ("_bounded" if kind == "MAP" else ""), kind, "cbor_serialized_size", top="cbor_serialized_size__top", size=True, must=8,
+        **(dict(extra_defs=["VERIF_MAP_CAP=4"], kind="bounded", bound=MAP_BOUND) if kind == "MAP" else {}),
         covers=1 if kind in ("INT", "FLOAT_CTRL", "DEF_BYTESTRING", "DEF_STRING") else 2 if kind == "TAG" else 3,
         props={"C07": FUNC + ["loop"], "C20": FUNC + ["loop"], "C18": FRAME, "C13": [], "C01": SAFETY, "C17": FRAME},
         replay="tag_readonly" if kind == "TAG" else None)
@@ -507,7 +684,7 @@ for kind in ("INT", "FLOAT_CTRL", "DEF_BYTESTRING", "DEF_STRING", "INDEF_BYTESTR
 P(name="decref_map_bounded", kind="bounded", bound="maps with at most 3 stored pairs (capacity and everything else symbolic)",
   props={"C04": FUNC + FRAME + ["loop"], "C13": [], "C01": SAFETY, "C06": [], "C17": FRAME},
   lib=ITEMLIB, stubs=ITEM_STUBS + ["stubs/decref_ghost.c"], contracts=DECREF_CONTRACTS, harness="harness/decref.c",
-  defines=["KIND_MAP", "VERIF_FIXED_NODES", "MAP_BOUND=3"], enforce="cbor_decref", twins={"cbor_decref": "cbor_decref__child"},
+  defines=["KIND_MAP", "VERIF_FIXED_NODES", "MAP_BOUND=3", "VERIF_MAP_CAP=4"], enforce="cbor_decref", twins={"cbor_decref": "cbor_decref__child"},
   replace=["cbor_decref__child"], loops="loops/decref_nomap.json", loop_fingerprint={"cbor_decref": 4},
   unwindset="cbor_decref_wrapped_for_contract_checking.3:5",
   must_exist=[r"cbor_decref\.postcondition\.4"], min_covers=2, cost=120, timeout=900, object_bits=10)
@@ -547,3 +724,20 @@ LOAD_CONTRACTS = CONT_CONTRACTS + ["contracts/stack.h", "contracts/load.h"]
 P(name="load_empty_input", props={"C05": FUNC + FRAME, "C01": SAFETY, "C13": []}, lib=LOADLIB, stubs=COPY_STUBS,
   contracts=LOAD_CONTRACTS, harness="harness/load.c", defines=["H_LOAD_EMPTY"], enforce="cbor_load", unwind=1,
   replay="load", must_exist=[r"cbor_load\.postcondition\.3"], min_covers=1, cost=10, object_bits=10)
+
+# ------------------------------------------------------------------------------------------------
+# Which proofs a property's check runs.  A proof can discharge obligations relevant to many properties, but
+# running every proof for the broad properties (C01, C13, C17) would make their quick tier hours long; each of
+# them runs the proofs on the decode / release / serialization paths its statement names and leaves the
+# remaining obligations to the property whose check runs that proof anyway.
+_TRIM = {
+    "C01": ("ro_", "enc_", "encdec_", "op_"),
+    "C13": ("ro_", "encdec_", "copy_", "ser_uint", "ser_negint", "ser_float", "ser_def", "ser_indef", "ser_tag", "ser_map",
+            "ser_size_int", "ser_size_float", "ser_size_def", "ser_size_indef", "ser_size_tag", "ser_size_map", "ser_encoded"),
+    "C17": ("ro_", "op_", "cont_", "copy_", "enc_", "ser_uint", "ser_negint", "ser_float", "ser_def", "ser_indef", "ser_tag",
+            "ser_map", "ser_array", "stack_"),
+}
+for _p in PROOFS:
+    for _pid, _prefixes in _TRIM.items():
+        if _pid in _p["props"] and _p["name"].startswith(_prefixes):
+            del _p["props"][_pid]
